@@ -232,6 +232,19 @@ def match(ctx: Any) -> List[Ob]:
         starts = [s_ for s_, lab in ct.succ if lab is arm]
         leak = [w for s_ in starts for w in [None if hit_f(s_) else cfg.path_avoiding(s_, lambda n: n is cfg.exit, hit_f, skip_start=False)] if w is not None]
         obs.append(ob(R, f, ct.ast, f'when an SRV record points the instance at another host, `{field}` is replaced by the cached addresses of the new host (not merged into)', bool(starts) and not leak, f'a path from the server-changed arm reaches the end of the function without assigning self.{field}' if leak else ''))
+    # `its addresses ... all of them when loaded from the cache`: the lists are kept free of duplicates with `addr not in list`,
+    # that is with the equality of the address objects.  The package's address classes inherit it from the standard library
+    # (value AND, for IPv6, the scope id); an equality of their own has to compare the scope id too, else the same link-local
+    # address heard on two interfaces collapses into one and an unexpired AAAA record of the host is left out
+    ipm = ctx.prog.module('zeroconf._utils.ipaddress')
+    addr_classes = [c for c in ctx.prog.classes.values() if c.module is ipm and any(b.endswith('Address') for b in c.ext_bases)]
+    if len(addr_classes) < 2:
+        raise AnalysisError('anchor vanished: the address classes of zeroconf._utils.ipaddress')
+    for c in sorted(addr_classes, key=lambda k: k.name):
+        v6 = any('6' in b for b in c.ext_bases)
+        own = [m for n_, m in c.methods.items() if n_ in ('__eq__', '__ne__')]
+        reads_scope = all(any(isinstance(x, ast.Attribute) and 'scope' in x.attr for x in ast.walk(m.node)) for m in own)
+        obs.append(ob(R, c, f'{c.name}.__eq__' if own else f'class {c.name}', 'address equality is the standard library\'s, or compares the scope id as well' if v6 else 'address equality is the standard library\'s or its own by value', (not own) or (not v6) or reads_scope, 'an __eq__ of its own that never looks at the scope id: fe80::1%2 == fe80::1%3' if own and v6 and not reads_scope else ''))
     return obs
 
 
